@@ -59,7 +59,20 @@ def run(tier, seed, replay_file=None):
     else:
         designs = universe.all_designs(tier, seed)
         styles = ("proc", "class") if tier == "quick" else ("proc", "call", "assign", "class", "gen")
-    jobs, evs, verdicts, gen = conn.run_designs(designs, "c01", styles=styles, entries=())
+    if tier == "quick" and not replay_file:
+        # every design procedurally; a seeded quarter of them also class-style
+        rnd0 = random.Random(seed)
+        extra = rnd0.sample(designs, len(designs) // 4)
+        jobs, evs, verdicts, gen = conn.run_designs(designs, "c01", styles=("proc",), entries=())
+        j2, e2, v2, g2 = conn.run_designs(extra, "c01b", styles=("class",), entries=())
+        base = len(evs)
+        for e in e2:
+            e["tid"] += base
+        evs += e2
+        verdicts.update({t + base: v for t, v in v2.items()})
+        gen += g2
+    else:
+        jobs, evs, verdicts, gen = conn.run_designs(designs, "c01", styles=styles, entries=())
     o.transitions += gen
     o.states += conn.validate.distinct
     o.traces = o.evaluations = len(evs)
